@@ -384,6 +384,15 @@ def v_pow(a, b, ctx=None):
                 r = a
                 for _ in range(b2 - 1):
                     r = v_mul(r, a)
+                if b2 % 2 == 0 and ctx is not None and isinstance(r, Sym) and not isinstance(a, SymC):
+                    if _term_size(r.z, 400) >= 400:
+                        # a large polynomial: name it. The bound is always available, the definition only in the later
+                        # solver stages (proving with the abstraction alone is sound: fewer hypotheses)
+                        v = ctx.fresh("sq", "real")
+                        ctx.global_axiom(v.z >= 0)
+                        ctx.fact(v.z == r.z)
+                        return v
+                    ctx.fact(r.z >= 0)  # an even power of a real is non-negative (valid; spares the solver the nonlinear step)
                 return r
             if -12 <= b2 < 0:
                 return v_truediv(1, v_pow(a, -b2, ctx), ctx)
@@ -392,6 +401,18 @@ def v_pow(a, b, ctx=None):
     if ctx is not None:
         return ctx.uf_apply("pow", [a, b])
     raise Unsupported("symbolic power")
+
+
+def _term_size(z, limit):
+    n, stack, seen = 0, [z], set()
+    while stack and n < limit:
+        t = stack.pop()
+        if t.get_id() in seen:
+            continue
+        seen.add(t.get_id())
+        n += 1
+        stack.extend(t.children())
+    return n
 
 
 def v_abs(a, ctx=None):
